@@ -123,11 +123,13 @@ func (self ValueString) iterNext() (Value, bool) {
 	old := *self.currIterIdx
 	*self.currIterIdx++
 
-	shouldContinue := *self.currIterIdx <= len(self.Inner)
+	// A string is iterated character by character (like `len` and indexing, iteration counts characters, not bytes).
+	characters := []rune(self.Inner)
+	shouldContinue := *self.currIterIdx <= len(characters)
 
 	if shouldContinue {
 		return *NewValueString(
-			fmt.Sprint(self.Inner[old]),
+			string(characters[old]),
 		), true
 	} else {
 		self.iterReset()
